@@ -141,6 +141,62 @@ theorem ConnInv.run (m : Mgr) (ops : List ConnOp) : ConnInv (ops.foldl connStep 
   | nil => intro mc h; simpa
   | cons op ops ih => intro mc h; exact ih _ (h.step op)
 
+/-- every `PING` the server received is directly preceded by an `UNWATCH` -/
+def Guarded (l : List Cmd) : Prop :=
+  ∀ i n, l[i]? = some (.ping n) → 0 < i ∧ l[i - 1]? = some .unwatch
+
+theorem Guarded.append_other {l : List Cmd} (h : Guarded l) (c : Cmd) (hc : ∀ n, c ≠ .ping n) :
+    Guarded (l ++ [c]) := by
+  intro i n hi
+  by_cases hlt : i < l.length
+  · rw [List.getElem?_append_left hlt] at hi
+    obtain ⟨h0, h1⟩ := h i n hi
+    refine ⟨h0, ?_⟩
+    rw [List.getElem?_append_left (by omega)]; exact h1
+  · rw [List.getElem?_append_right (by omega)] at hi
+    cases hj : i - l.length with
+    | zero => simp [hj] at hi; exact absurd hi (hc n)
+    | succ j => simp [hj] at hi
+
+theorem Guarded.append_recycle {l : List Cmd} (h : Guarded l) (k : Nat) :
+    Guarded (l ++ [.unwatch, .ping k]) := by
+  have h1 : Guarded (l ++ [.unwatch]) := h.append_other _ (by intro n; simp)
+  have e : l ++ [Cmd.unwatch, Cmd.ping k] = (l ++ [.unwatch]) ++ [.ping k] := by simp
+  rw [e]
+  intro i n hi
+  by_cases hlt : i < (l ++ [Cmd.unwatch]).length
+  · rw [List.getElem?_append_left hlt] at hi
+    obtain ⟨h0, h2⟩ := h1 i n hi
+    refine ⟨h0, ?_⟩
+    rw [List.getElem?_append_left (by omega)]; exact h2
+  · have hlen : (l ++ [Cmd.unwatch]).length = l.length + 1 := by simp
+    rw [List.getElem?_append_right (by omega)] at hi
+    have : i - (l ++ [Cmd.unwatch]).length = 0 := by
+      cases hj : i - (l ++ [Cmd.unwatch]).length with
+      | zero => rfl
+      | succ j => rw [hj] at hi; simp at hi
+    have hi' : i = l.length + 1 := by omega
+    refine ⟨by omega, ?_⟩
+    subst hi'
+    rw [List.getElem?_append_left (by simp)]
+    simp
+
+/-- **C17 (UNWATCH before every PING, whole life of a connection).** In the server's log of any
+connection, after any sequence of user commands and recycles, every `PING` is directly preceded
+by an `UNWATCH`: no recycle ever probes a connection without first clearing its watches. -/
+theorem C17_every_ping_after_unwatch (m : Mgr) (ops : List ConnOp) : Guarded (ops.foldl connStep (m, {})).2.log := by
+  suffices ∀ mc : Mgr × Conn, Guarded mc.2.log → Guarded (ops.foldl connStep mc).2.log from
+    this _ (by intro i n hi; simp at hi)
+  induction ops with
+  | nil => intro mc h; simpa
+  | cons op ops ih =>
+    intro mc h
+    apply ih
+    cases op with
+    | watch => exact h.append_other _ (by intro n; simp)
+    | other => exact h.append_other _ (by intro n; simp)
+    | recycle r => exact h.append_recycle _
+
 /-- **C17 (clean at every hand-out, whole life of a connection).** Take any connection, created
 when the manager's counter was anything, and ANY sequence of user commands (`WATCH`, anything
 else) and recycles with arbitrary server answers.  If the sequence ends with a recycle - the
